@@ -140,6 +140,7 @@ void vm_thread_1(void) {
   fiber_manager_yield(mgr);
   vm_assert(swaps == 1 && alive[0] == 0 && mgr->done_fiber == 0, "C01: after the switch the finished fiber has been reclaimed exactly once by its successor");
 #elif MODE == 8
+  A->scratch = (void*)vm_nondet();   /* scratch is shared by several mechanisms: whatever the previous one left in it */
   fiber_signal_wait(&sig);
   vm_assert(swaps == 1 && A->scratch == 0, "C01: signal wait path");
 #elif MODE == 11
